@@ -773,3 +773,60 @@ pub fn c16_reach_conn_update_satisfies_waiter() {
     kani::cover!(true, "end");
     forget(w);
 }
+
+// ---------------------------------------------------------------------------
+// C05.admit: a stream waiting for a concurrency slot
+// ---------------------------------------------------------------------------
+/// `pop_pending_open` for a queued stream in any state shape (a request may have been
+/// reset or dropped while it waited: its HEADERS + RST_STREAM still go on the wire, so it
+/// still occupies a slot until they do): admitted only when a slot is free, and every
+/// admitted stream is counted.
+fn admit_pending_open(lo: u8, hi: u8) {
+    let c = cfg();
+    let mut prio = Prioritize::new(&c);
+    let mut counts = Counts::new(peer::Dyn::Client, &c);
+    let mut store = Store::new();
+    let id = StreamId::from(ID);
+    let mut stream = Stream::new(id, 0, 0);
+    stream.state = st_h::any_state_in(id, lo, hi);
+    stream.ref_count = 1;
+    stream.is_pending_open = true;
+    let key = store_h::insert_slab_only(&mut store, stream);
+    store_h::queue_set_single(&mut prio.pending_open, key);
+    let num: usize = kani::any();
+    let max: usize = kani::any();
+    counts_h::set_counts(&mut counts, num, max, 0, usize::MAX);
+    let waiting: bool = kani::any();
+    if waiting {
+        let wk = cw::waker(0);
+        let cx = Context::from_waker(&wk);
+        store.resolve(key).wait_send(&cx);
+    }
+    let w0 = cw::wakes(0);
+    let popped = prio.pop_pending_open(&mut store, &mut counts).map(|p| p.key());
+    let (ns, _) = counts_h::get_counts(&counts);
+    let p = store.resolve(key);
+    match popped {
+        Some(k) => {
+            assert!(k == key);
+            assert!(num < max, "C05.admit: stream admitted although the peer's limit was reached");
+            assert!(p.is_counted && ns == num + 1, "C05.admit: admitted stream does not hold a slot (the next queued stream would be opened too)");
+            assert!(!p.is_pending_open);
+            if waiting {
+                assert!(cw::wakes(0) == w0 + 1, "C05.ready: the waiter of an admitted stream was not woken");
+            }
+        }
+        None => {
+            assert!(num >= max, "free slot but the queued stream was not admitted");
+            assert!(p.is_pending_open && !p.is_counted && ns == num, "refused admission changed state");
+        }
+    }
+    kani::cover!(popped.is_some(), "admitted");
+    kani::cover!(popped.is_none(), "waits");
+    kani::cover!(true, "end");
+    std::mem::forget(store);
+    std::mem::forget(counts);
+    std::mem::forget(prio);
+}
+pub fn c05_admit_pending_open_live() { admit_pending_open(0, 5) }
+pub fn c05_admit_pending_open_closed() { admit_pending_open(6, 11) }
